@@ -156,6 +156,8 @@ CheckReLimit(e) ==
   /\ Chk(e.res[Len(e.res)].ok, "valid pattern rejected under the default size limit")
   \* a limit is a setting of the parser: the same pattern gets the same verdict inside parentheses and under not
   /\ \A i \in 1..Len(e.res) : Chk(e.res[i].nested = e.res[i].ok, <<"size limit differs under nesting at", i>>)
+  \* ... and of that parser only: what other parsers compiled before does not matter
+  /\ Chk(e.again = e.res[1].ok, "the verdict under the smallest limit changed after the pattern had been compiled under a larger one")
 
 Init == l = 1 /\ nbad = 0 /\ TLCSet(11, 0) /\ TLCSet(12, 0) /\ TLCSet(13, 0)
 Next == /\ l <= Len(Rec)
